@@ -42,6 +42,7 @@ type c17Op struct {
 	// operands are evaluated from left to right, so the builtin sees the state before g ran)
 	Comp  string `json:"comp,omitempty"`
 	Path2 string `json:"path2,omitempty"`
+	Count int    `json:"count,omitempty"` // for/fordirect renderings of writes: the loop runs Count times (0 = once)
 }
 
 // spelled returns the path as the program spells it; the model always uses Path.
@@ -306,7 +307,7 @@ func c17Gen(rng *gen.Rng, population string) *c17Hist {
 			burst--
 			p = burstPath
 		}
-		render := rng.Pick([]string{"top", "direct", "direct", "direct", "funcparam", "funcglobal", "funcdirect", "nested", "nested", "if", "ifdirect", "for", "fordirect", "shared", "shared"})
+		render := rng.Pick([]string{"top", "direct", "direct", "direct", "funcparam", "funcglobal", "funcdirect", "nested", "nested", "if", "ifdirect", "for", "fordirect", "shared", "shared", "unused"})
 		if inBurst {
 			render = rng.Pick([]string{"direct", "direct", "top"})
 		}
@@ -318,19 +319,24 @@ func c17Gen(rng *gen.Rng, population string) *c17Hist {
 		if inBurst {
 			k = rng.Pick2([]int{5, 35, 60, 60, 80, 80}) // write, append, read, read, exists, exists
 		}
+		count := 0
+		if (render == "for" || render == "fordirect") && rng.Chance(30) {
+			// the loop really loops: a few, some dozen, or more iterations than a process may hold open files (the scripts run under ulimit -n 256, the default of macOS)
+			count = rng.Pick2([]int{2, 3, 3, 40, 40, 300})
+		}
 		switch {
 		case k < 22:
-			h.Ops = append(h.Ops, c17Op{Kind: "write", Spell: spell, Path: p, Content: content(), Render: render, POrigin: origin(p), COrigin: origin("")})
+			h.Ops = append(h.Ops, c17Op{Kind: "write", Spell: spell, Path: p, Content: content(), Render: render, POrigin: origin(p), COrigin: origin(""), Count: count})
 			files[p] = true
 		case k < 30:
-			h.Ops = append(h.Ops, c17Op{Kind: "writeF", Spell: spell, Path: p, Content: content(), Render: render, POrigin: origin(p), COrigin: origin("")})
+			h.Ops = append(h.Ops, c17Op{Kind: "writeF", Spell: spell, Path: p, Content: content(), Render: render, POrigin: origin(p), COrigin: origin(""), Count: count})
 			files[p] = true
 		case k < 46:
-			h.Ops = append(h.Ops, c17Op{Kind: "append", Spell: spell, Path: p, Content: content(), Render: render, POrigin: origin(p), COrigin: origin("")})
+			h.Ops = append(h.Ops, c17Op{Kind: "append", Spell: spell, Path: p, Content: content(), Render: render, POrigin: origin(p), COrigin: origin(""), Count: count})
 			files[p] = true
 		case k < 54:
 			fl := rng.Chance(50)
-			h.Ops = append(h.Ops, c17Op{Kind: "appendVar", Spell: spell, Path: p, Content: content(), Render: render, POrigin: origin(p), COrigin: origin(""), Flag: fl})
+			h.Ops = append(h.Ops, c17Op{Kind: "appendVar", Spell: spell, Path: p, Content: content(), Render: render, POrigin: origin(p), COrigin: origin(""), Flag: fl, Count: count})
 			files[p] = true
 		case k < 74:
 			if !files[p] {
@@ -621,6 +627,7 @@ func (h *c17Hist) render(seed uint64) []*c17Segment {
 		}
 		return tshLit(rng, val)
 	}
+	loopN := 1 // iterations of the for/fordirect rendering of the operation being rendered
 	wrap := func(render string, id int, body string, params [][2]string) string {
 		// params: (name, argument expression); body uses the names
 		if strings.HasSuffix(render, "direct") {
@@ -634,7 +641,7 @@ func (h *c17Hist) render(seed uint64) []*c17Segment {
 			case "ifdirect":
 				return "if true {\n" + body + "}\n"
 			case "fordirect":
-				return fmt.Sprintf("for it%d := 0; it%d < 1; it%d++ {\n%s}\n", id, id, id, body)
+				return fmt.Sprintf("for it%d := 0; it%d < %d; it%d++ {\n%s}\n", id, id, loopN, id, body)
 			}
 			return body
 		}
@@ -673,6 +680,31 @@ func (h *c17Hist) render(seed uint64) []*c17Segment {
 			}
 			return fmt.Sprintf("func fi%d(q%d string) string {\nv%d := q%d + \"!\"\nw%d := v%d\nreturn w%d\n}\nfunc fn%d(%s) {\nu%d := fi%d(\"k\")\n%sprint(\"<<N>>\" + u%d)\n}\nfn%d(%s)\n",
 				id, id, id, id, id, id, id, id, strings.Join(ps, ", "), id, id, body, id, id, strings.Join(as, ", "))
+		case "unused":
+			// the operation happens in a function whose VALUE is an operand of an expression that
+			// initialises a top-level variable nobody ever reads: the call must still happen
+			ps, as := []string{}, []string{}
+			for _, p := range params {
+				ps = append(ps, p[0]+" "+"string")
+				as = append(as, p[1])
+			}
+			call := fmt.Sprintf("fn%d(%s)", id, strings.Join(as, ", "))
+			stmt := ""
+			switch rng.Intn(6) {
+			case 0:
+				stmt = fmt.Sprintf("uu%d := %s", id, call)
+			case 1:
+				stmt = fmt.Sprintf("uu%d := %s == \"r\"", id, call)
+			case 2:
+				stmt = fmt.Sprintf("uu%d := len(%s)", id, call)
+			case 3:
+				stmt = fmt.Sprintf("uu%d := %s + \"!\"", id, call)
+			case 4:
+				stmt = fmt.Sprintf("var uu%d bool = \"r\" != %s", id, call)
+			default:
+				stmt = fmt.Sprintf("uu%d, uv%d := 1, %s", id, id, call)
+			}
+			return fmt.Sprintf("func fn%d(%s) string {\n%sreturn \"r\"\n}\n%s\n", id, strings.Join(ps, ", "), body, stmt)
 		case "funcparam":
 			ps, as := []string{}, []string{}
 			for _, p := range params {
@@ -695,7 +727,7 @@ func (h *c17Hist) render(seed uint64) []*c17Segment {
 		case "if":
 			return g.String() + "if true {\n" + body + "}\n"
 		case "for":
-			return g.String() + fmt.Sprintf("for it%d := 0; it%d < 1; it%d++ {\n%s}\n", id, id, id, body)
+			return g.String() + fmt.Sprintf("for it%d := 0; it%d < %d; it%d++ {\n%s}\n", id, id, loopN, id, body)
 		}
 		return g.String() + body
 	}
@@ -766,13 +798,21 @@ func (h *c17Hist) render(seed uint64) []*c17Segment {
 					fmt.Fprintf(&sb, "fl%d := %s\nshw(%s, %s, fl%d)\n", id, cond, pe, ce, id)
 				}
 			} else {
+				loopN = 1
+				if op.Count > 1 && (op.Render == "for" || op.Render == "fordirect") && op.COrigin != "readof" {
+					loopN = op.Count // (an inline read(q) as content would change from iteration to iteration)
+					if len(op.Content) > 4096 {
+						loopN = min(loopN, 3)
+					}
+				}
 				sb.WriteString(wrap(op.Render, id, call, [][2]string{{pn, pe}, {cn, ce}}))
 			}
 			if isAppend {
-				m.Files[op.Path] = m.Files[op.Path] + op.Content + "\n"
+				m.Files[op.Path] = m.Files[op.Path] + strings.Repeat(op.Content+"\n", loopN)
 			} else {
 				m.Files[op.Path] = op.Content + "\n"
 			}
+			loopN = 1
 			cur.OpIdx = append(cur.OpIdx, i)
 		case "read":
 			var pre strings.Builder
@@ -1053,7 +1093,7 @@ func c17RunX(r *Run, h *c17Hist, seed uint64, st *c17Stats, harvest *[]string) (
 		// load, and judged as "script-hangs". The wall-clock watchdog is only a
 		// safety net and leads to a machinery error, never to a verdict.
 		ctx, cancel := context.WithTimeout(context.Background(), bashWatchdog)
-		cmd := exec.CommandContext(ctx, "/bin/bash", "-c", `ulimit -t 2; exec /bin/bash "$0"`, script)
+		cmd := exec.CommandContext(ctx, "/bin/bash", "-c", `ulimit -t 2; ulimit -n 256; exec /bin/bash "$0"`, script)
 		cmd.Dir = priv
 		cmd.Env = []string{"PATH=/usr/local/bin:/usr/bin:/bin", "LC_ALL=C.UTF-8"}
 		cmd.Stdout, cmd.Stderr = &limitedWriter{w: &so, n: 32 << 20}, &limitedWriter{w: &se, n: 4096}
@@ -1388,6 +1428,7 @@ func c17Report(r *Run, h *c17Hist, seed uint64, kind, detail string, cfPass bool
 	for i := range cur.Ops {
 		for _, simp := range []func(*c17Op){
 			func(o *c17Op) { o.Render = "direct" },
+			func(o *c17Op) { o.Count = 0 },
 			func(o *c17Op) {
 				if o.Kind == "read" && o.Comp != "thenmod" {
 					o.Comp, o.Path2 = "", ""
